@@ -1121,8 +1121,8 @@ private:
 		}
 		catch (...)
 		{
-			//?
-			return false;
+			// the check itself has failed, that says nothing about the container
+			return true;
 		}
 	}
 
